@@ -277,6 +277,24 @@ def directed() -> Iterator[Tuple[str, G.Script]]:
         s.round([s.rd(1, cd.MT_CONNECT, G.p_connect(), src=a)])     # the v1 CONNECT that follows v2
         s.round([s.rd(3, 5000, b"to-a", src=30, dest=a)])
         yield f"ident_{a}_{am1}_{n1.decode()}_{b}_{am2}_{n2.decode()}", s
+    # three parties: a multi-instance incumbent, a unique module with a name, a newcomer that shares the id of the first
+    # and the name of the second (any order of the incumbents, any uniqueness of the newcomer)
+    for first in ("multi", "unique"):
+        for am_new in (0, 1):
+            for nm_new in (b"cam", b"other", b""):
+                for id_new in (12, 13, 0):
+                    s = G.Script(); s.accept(4)
+                    s.round([s.rd(4, cd.MT_CONNECT, G.p_connect(), src=30)])
+                    s.round([s.rd(4, cd.MT_SUBSCRIBE, G.p_i32(cd.MT_CLIENT_INFO))])
+                    inc = [(1, G.p_connect_v2(allow_multiple=1, mod_id=12, pid=5, name=b"worker")),
+                           (2, G.p_connect_v2(allow_multiple=0, mod_id=13, pid=6, name=b"cam"))]
+                    if first == "unique":
+                        inc.reverse()
+                    for u, pay in inc:
+                        s.round([s.rd(u, cd.MT_CONNECT_V2, pay)])
+                    s.round([s.rd(3, cd.MT_CONNECT_V2, G.p_connect_v2(allow_multiple=am_new, mod_id=id_new, pid=7, name=nm_new))])
+                    s.round([s.rd(4, 5000, b"x", src=30, dest=12)])
+                    yield f"ident3_{first}_{am_new}_{nm_new.decode()}_{id_new}", s
     for rid in (0, 1, 99, 100, 101, 199, 200, -1, 32767, -32768):
         s = G.Script(); s.accept(3)
         s.round([s.rd(3, cd.MT_CONNECT, G.p_connect(), src=30)])
